@@ -85,6 +85,7 @@ def replay(vd, vecs, bdir, wd, pid, flavour_tag="plain", check_illformed=True,
             byid[r["id"]] = r
     nontrivial = set()
     mismatches = []
+    pos0 = pos
     for i, v in enumerate(vecs):
         r = byid.get(str(i))
         txt = texts[i]
@@ -112,6 +113,7 @@ def replay(vd, vecs, bdir, wd, pid, flavour_tag="plain", check_illformed=True,
         if r["status"] != "ok":
             mismatches.append((i, "status " + r["status"] + ": " + r.get("err", ""), r))
             continue
+        pos = pos0 and v.get("posfixed", True)
         exp = [zw.norm_model_stack(s, pos) for s in v["den"]]
         got = [zw.norm_real_stack(s, pos) for s in r["results"]]
         if v.get("ordered"):
@@ -120,6 +122,9 @@ def replay(vd, vecs, bdir, wd, pid, flavour_tag="plain", check_illformed=True,
             same = zw.multiset(exp) == zw.multiset(got)
         if not same:
             mismatches.append((i, "results differ", r))
+            continue
+        if v.get("periodic") and len(got) % 2 == 0 and got[:len(got) // 2] != got[len(got) // 2:]:
+            mismatches.append((i, "two identical input stacks, fed one at a time, are not answered with the same sequence twice", r))
             continue
         if not (v["lo"] <= r["soft"] <= v["hi"]):
             mismatches.append((i, "diagnostics: %d not in [%d,%d]" % (r["soft"], v["lo"], v["hi"]), r))
